@@ -11,7 +11,7 @@ RULE = ("Hypothesis draws a crystal (small catalogue structures and generated re
         "without site vector bases), the smallest percolating vacancy network, Nthermo in {1,2} and random vacancy, solute, binding and "
         "omega0/omega1/omega2 transition-state free energies.  Oracle: the exact one-solute/one-vacancy Markov chain on three periodic "
         "supercells (brute-force sparse linear algebra on every state, no symmetry), extrapolated in 1/N to infinite dilution; L0vv is "
-        "compared with the lone-vacancy full-space diffusivity.  Tolerance max(5 x extrapolation error bar, 3e-4 x scale).  Non-trivial: "
+        "compared with the lone-vacancy full-space diffusivity.  Tolerance max(5 x extrapolation error bar, 3e-4 x scale); a larger difference is accepted only if it shrinks by 20% or more when the library is re-evaluated with the denser k-mesh NGFmax=8 (integration_limited).  Non-trivial: "
         "a binding energy or transition-state deviation > 0.1 kT and Lss differs from the tracer value; distinct by (crystal, network, Nthermo, data).")
 ASSUMPTIONS = ["states and transitions are classified through the calculator's own lookup (thermo.starindex, kinetic.stateindex, om1/om2 lists); the "
                "classification itself is the subject of C24/C26",
@@ -93,6 +93,10 @@ def check(case, budget=12000):
     if not vs.sizes_ok(calc, data):
         raise HarnessError("stale case")
     pl = case.get("pipeline")
+    def evaluate(calc):
+        if pl is None:
+            return calc.Lij(*vs.args(data))
+        return calc.Lij(*calc.preene2betafree(kT, **d))
     if pl is None:
         L0vv, Lss, Lsv, L1vv = calc.Lij(*vs.args(data))
     else:
@@ -122,10 +126,24 @@ def check(case, budget=12000):
         classes.append("excluded_R11_redrawn")
     classes.append("via_preene2betafree" if pl is not None else "direct_arrays")
     worst = {}
+    # Index convention of the cross coefficient: Lij assembles Lsv[a, b] with a on the vacancy bias vector and b on the solute
+    # response (np.dot(np.dot(vkinetic.outer, eta_S), bias_V)), i.e. <dx_v^a dx_s^b>/2t, the transpose of the chain's <dx_s^a dx_v^b>.
+    # The two differ only where the point group admits an antisymmetric invariant tensor (chiral 2D cells, C2h, ...); the docstring
+    # fixes no order, so the chain value is transposed to the library's order (always, not whichever fits).
+    o = dict(o)
+    o["Lsv"] = np.asarray(o["Lsv"]).T
     for nm, lib in (("Lss", Lss), ("Lsv", Lsv), ("L1vv", L1vv)):
         tol = max(5 * o[nm + "_err"], 3e-4 * scale * pmax)
         err = np.abs(np.asarray(lib) - o[nm]).max()
         worst[nm] = (err / scale, tol / scale)
+        if err > tol:
+            # "to within the calculator's own Brillouin-zone integration accuracy": decided by refinement (see vacancy.py), never by a constant
+            idx = {"Lss": 1, "Lsv": 2, "L1vv": 3}[nm]
+            ok, e8 = vs.within_integration_accuracy(case["setup"], lambda c8: np.abs(np.asarray(evaluate(c8)[idx]) - o[nm]).max(), err, tol)
+            if ok:
+                classes.append("integration_limited")
+                continue
+            err = max(err, e8) if e8 is not None else err
         require(err <= tol, lambda: "%s differs from the infinite-dilution limit of the exact chain: |diff| = %.3e (scale %.3e, tolerance %.3e, oracle error bar %.3e, "
                 "supercells %s): library %s chain %s" % (nm, err, scale, tol, o[nm + "_err"], o["sizes"], np.asarray(lib).tolist(), o[nm].tolist()))
     tr = vs.tracer_data(calc, data["bFV"], data["bFT0"])
